@@ -527,6 +527,7 @@ class LoopMixin:
         # vacuity guard: the precondition must be satisfiable
         self.oblige(st, z3.BoolVal(False), "cover", "requires-satisfiable", fdef, expect_fail=True)
         self._ghost_seen = set()
+        self._hints_seen = set()
         for gname, (gty, ginit) in c.ghost_vars.items():
             if gname in st.env or gname in pnames:
                 raise ContractMisfit(f"ghost variable '{gname}' clashes with a program variable")
@@ -577,6 +578,9 @@ class LoopMixin:
                     o_.pc = s2.pc
                     self.oblige(s2, self.clause(c.raises[o.exc], o_), "raises", f"{o.exc}@L{ln}", None, info={"clause": c.raises[o.exc]})
             self.old_state = None
+        for hkey in c.hints:
+            if hkey not in self._hints_seen:
+                raise ContractMisfit(f"{c.key}: hint is attached to a statement that does not occur: '{hkey}'")
         for g in c.ghost:
             if g not in self._ghost_seen:
                 raise ContractMisfit(f"{c.key}: ghost update is attached to a statement that no longer exists: '{g}'")
